@@ -144,7 +144,7 @@ def run_mul(case):
     rec.update(out="", exact=0, mulB=[], mulT=[], rmulB=[], rmulT=[], afterB=[], afterT=[], fresh=0, scores=[])
     try:
         s = _impl["SS"](core.scheme_float(B, T, unit))
-        k = num / den
+        k = num if den == 1 and num % 2 == 1 else num / den        # odd integer factors as int, the others as float
         a = s * k
         b = k * s
         exact = True
